@@ -34,15 +34,15 @@ func (l *LRAPlanner) Process(ctx *shared.PlannerContext) (sql.ISelect, error) {
 	var col sql.SQLObject
 	switch l.Func {
 	case "rate":
-		col = sql.NewRawObject(fmt.Sprintf("toFloat64(COUNT()) / %f",
-			float64(l.Duration.Milliseconds())/1000))
+		col = sql.NewRawObject(fmt.Sprintf("toFloat64(COUNT()) / %s",
+			secondsText(l.Duration)))
 		break
 	case "count_over_time":
 		col = sql.NewRawObject("toFloat64(COUNT())")
 		break
 	case "bytes_rate":
-		col = sql.NewRawObject(fmt.Sprintf("toFloat64(sum(length(_string))) / %f",
-			float64(l.Duration.Milliseconds())/1000))
+		col = sql.NewRawObject(fmt.Sprintf("toFloat64(sum(length(_string))) / %s",
+			secondsText(l.Duration)))
 		break
 	case "bytes_over_time":
 		col = sql.NewRawObject("toFloat64(sum(length(_string)))")
